@@ -50,6 +50,9 @@ pub struct Case {
     /// optional second source directory with its own tree and .gitignore
     #[serde(default)]
     pub second: Option<(Vec<TEnt>, Vec<Pat>)>,
+    /// also pass -L; only effective for trees without any symbolic link, where it must not change the outcome
+    #[serde(default)]
+    pub deref: bool,
 }
 
 pub fn strategy() -> BoxedStrategy<Case> {
@@ -70,8 +73,9 @@ pub fn strategy() -> BoxedStrategy<Case> {
         prop::bool::weighted(0.6),
         0..GNAMES.len() as u8,
         prop::option::weighted(0.3, (prop::collection::vec(tent, 2..12), prop::collection::vec(pat, 0..6))),
+        prop::bool::weighted(0.4),
     )
-        .prop_map(|(tree, pats, flags, use_flag, links, src_name, second)| Case { tree, pats, flags, use_flag, links, src_name, second })
+        .prop_map(|(tree, pats, flags, use_flag, links, src_name, second, deref)| Case { tree, pats, flags, use_flag, links, src_name, second, deref })
         .boxed()
 }
 
@@ -311,6 +315,11 @@ pub fn judge(c: &Case, rec: &mut Rec) -> Verdict {
     if c.use_flag {
         args.push(s("--gitignore"));
     }
+    let deref = c.deref && !pre.values().any(|m| m.kind == K::L);
+    if deref {
+        args.push(s("-L"));
+        rec.class(format!("dereference-on-a-link-free-tree|flag={}", c.use_flag));
+    }
     args.push(s("-r"));
     for (dir, _) in &srcs {
         args.push(dir.clone());
@@ -408,6 +417,6 @@ impl Check for C17 {
         }
     }
     fn required_classes(&self, _tier: Tier) -> Vec<String> {
-        ["feature|literal", "feature|star", "feature|qmark", "feature|**/", "feature|/**", "feature|dir-only", "feature|anchored", "feature|path", "neg=true", "flag=false", "links=true", "srcs=2", "entry-named-like-its-source"].iter().map(|s| s.to_string()).collect()
+        ["feature|literal", "feature|star", "feature|qmark", "feature|**/", "feature|/**", "feature|dir-only", "feature|anchored", "feature|path", "neg=true", "flag=false", "links=true", "srcs=2", "entry-named-like-its-source", "dereference-on-a-link-free-tree|flag=true"].iter().map(|s| s.to_string()).collect()
     }
 }
